@@ -169,6 +169,14 @@ type svStepResult struct {
 	signers       []int
 }
 
+// deliver runs the in-memory residue hook, then the real txDeliverer.
+func (e *svEnv) deliver(tx action.SignedTx) ResponseDeliverTx {
+	if e.beforeDeliver != nil {
+		e.beforeDeliver()
+	}
+	return svDeliver(e.app, tx)
+}
+
 // step signs, (optionally) assumes mempool admission, delivers in the open block.
 func (e *svEnv) step(raw action.RawTx, signers []int, admitted bool) *svStepResult {
 	tx := svSign(raw, signers...)
